@@ -385,3 +385,34 @@ package ply
 //@   ensures double_value: bv1pr.scalarType == Double ==> bv1pr.arr[i] == f64frombits(b64(buf, bv1pr.offset))
 //@   ensures int_value: bv1pr.scalarType == Int ==> bv1pr.arr[i] == real(int32(b32(buf, bv1pr.offset)))
 //@   ensures other_vertices_untouched: forall k int :: 0 <= k && k < len(bv1pr.arr) && k != i ==> bv1pr.arr[k] == old(bv1pr.arr[k])
+
+// ---- C08 / C04: list payload decoding (face indices, texture coordinates) -------------------------------
+// After Read, buf holds lastReadListSize entries of the list type; Int / Float64 decode entry j from the bytes at
+// j * size (int32 for int/uint lists, float32 or float64 bits for float/double lists), in order.
+
+//@ func listBinaryPropertyReader.Int
+//@   props C08 C04
+//@   modifies out
+//@   requires lpr.lastReadListSize >= 0 && len(lpr.buf) >= lpr.lastReadListSize * 4 && ref(out) != ref(lpr.buf)
+//@   returns err
+//@   ensures entries_in_order: err == nil ==> forall j int :: 0 <= j && j < lpr.lastReadListSize ==> out[j] == int32(b32(lpr.buf, 4 * j))
+//@   ensures fits_or_error: err == nil ==> len(out) >= lpr.lastReadListSize
+//@   ensures only_integer_lists: err == nil && lpr.lastReadListSize > 0 ==> lpr.property.ListType == UInt || lpr.property.ListType == Int
+//@   loop 1:
+//@     invariant 0 <= i && i <= lpr.lastReadListSize && len(out) >= lpr.lastReadListSize
+//@     invariant source_untouched: forall q int :: 0 <= q && q < len(lpr.buf) ==> lpr.buf[q] == old(lpr.buf[q])
+//@     invariant done: forall j int :: 0 <= j && j < i ==> out[j] == int32(b32(lpr.buf, 4 * j))
+//@     invariant i > 0 ==> lpr.property.ListType == UInt || lpr.property.ListType == Int
+
+//@ func listBinaryPropertyReader.Float64
+//@   props C08 C04
+//@   modifies out
+//@   requires lpr.lastReadListSize >= 0 && (lpr.property.ListType == Float ==> len(lpr.buf) >= lpr.lastReadListSize * 4) && (lpr.property.ListType == Double ==> len(lpr.buf) >= lpr.lastReadListSize * 8)
+//@   returns err
+//@   ensures float_entries_in_order: err == nil && lpr.property.ListType == Float ==> forall j int :: 0 <= j && j < lpr.lastReadListSize ==> out[j] == f32frombits(b32(lpr.buf, 4 * j))
+//@   ensures double_entries_in_order: err == nil && lpr.property.ListType == Double ==> forall j int :: 0 <= j && j < lpr.lastReadListSize ==> out[j] == f64frombits(b64(lpr.buf, 8 * j))
+//@   ensures fits_or_error: err == nil ==> len(out) >= lpr.lastReadListSize
+//@   loop 1:
+//@     invariant 0 <= i && i <= lpr.lastReadListSize && len(out) >= lpr.lastReadListSize
+//@     invariant float_done: lpr.property.ListType == Float ==> forall j int :: 0 <= j && j < i ==> out[j] == f32frombits(b32(lpr.buf, 4 * j))
+//@     invariant double_done: lpr.property.ListType == Double ==> forall j int :: 0 <= j && j < i ==> out[j] == f64frombits(b64(lpr.buf, 8 * j))
